@@ -58,6 +58,8 @@ def build_terms(tier: str, seed: int) -> Tuple[List[dict], Dict[str, Any]]:
         add(fam, term)
     for fam, term in G.same_field_chains():
         add(fam, term)
+    for fam, term in G.literal_kind_family() + G.real_family():
+        add(fam, term)
     # deep structure: operator skeletons whose sub-groups start and end with groups, strings with parentheses / quotes
     atoms = G.bool_atoms()
     atoms2 = [("cmp", "eq", ("field", "a"), G.INT_Q), ("cmp", "eq", ("field", "s"), ("str", "((")), ("field", "f"),
@@ -395,6 +397,27 @@ def classify(r: dict) -> str:
     return f"other-{ob}"
 
 
+_INFIX_TOPS = ("cmp", "bin", "like", "in", "isnull", "is", "between", "and", "or", "not", "neg")
+
+
+def probe_infix_functions() -> Dict[str, List[str]]:
+    """{function -> dialects in which the rendering of f(sample args) parses to an operator at the top}"""
+    out: Dict[str, List[str]] = {}
+    for name, (rtype, args) in G.FUNCTION_SAMPLES.items():
+        text = G.to_text(("call", name, list(args)))
+        for d in DIALECTS:
+            st, sql = tv.real_sql(text, d)
+            if st != "ok" or not isinstance(sql, str):
+                continue
+            try:
+                tree = SP.parse_expr(sql, "sqlite")        # lenient mode: we only want the top node
+            except (SP.SqlIllFormed, SP.SqlUnsupported):
+                continue
+            if tree[0] in _INFIX_TOPS:
+                out.setdefault(name, []).append(d)
+    return out
+
+
 def replay_known(entry: dict) -> Tuple[bool, str]:
     w = entry["witness"]
     term = tv._retuple(w["term"])
@@ -440,6 +463,14 @@ def main() -> int:
             run.notes.append(f"known finding {rid!r} no longer reproduces ({what}); its region is NOT excluded")
 
     items, info = build_terms(run.tier, run.seed)
+    # functions that SOME dialect renders as an infix expression (found by probing the live visitors and parsing what
+    # they emit, not read from the source table): each is tried as left / right operand of every operator level
+    infix = probe_infix_functions()
+    info["infix_rendered_functions"] = infix
+    for name in sorted(infix):
+        rtype, args = G.FUNCTION_SAMPLES[name]
+        for fam, term in G.operand_positions(("call", name, list(args)), rtype):
+            items.append({"name": f"f{len(items)}", "family": fam, "term": term})
     extra = tv.discover_extra_alphabet(DIALECTS)          # characters the visitors introduce themselves (ESCAPE '!')
     info["adaptive_alphabet"] = extra
     for fam, term in G.adaptive_family(extra):
